@@ -236,7 +236,8 @@ impl MT935 {
                 value.push_str(&field_23.reference);
 
                 // Minimum length check: 3 (currency) + at least one function character
-                if value.len() < 4 {
+                // (the components are cut out by byte offset: the text must be ASCII)
+                if value.len() < 4 || !value.is_ascii() {
                     errors.push(SwiftValidationError::format_error(
                         "T26",
                         "23",
